@@ -85,8 +85,17 @@ func newAggSession(env *Env, prop string) (*aggSession, error) {
 	inactive := time.Duration(cfgOr(pl, "inactive_ms", 3000)) * time.Millisecond
 	intermediate.MaxRetries = int(cfgOr(pl, "max_retries", 2))
 	intermediate.MinExpiryTime = time.Duration(cfgOr(pl, "min_expiry_ms", 100)) * time.Millisecond
+	// The list of fields to correlate is the application's: it may name an element of a type
+	// correlation does not handle (such a field is ignored). Everything else in the list still
+	// has to be merged.
+	corr := aggCorrelateBoth
+	if odd := int(cfgOr(pl, "corr_odd", 0)); odd > 0 {
+		at := (odd - 1) % (len(aggCorrelateBoth) + 1)
+		corr = append(append(append([]string(nil), aggCorrelateBoth[:at]...), []string{"flowStartSeconds", "octetTotalCount"}[odd%2]), aggCorrelateBoth[at:]...)
+		env.Count("probe.correlate_list_with_unsupported_type", 1)
+	}
 	ap, err := intermediate.InitAggregationProcess(intermediate.AggregationInput{
-		MessageChan: s.msgCh, WorkerNum: 2, CorrelateFields: aggCorrelateBoth, AggregateElements: aggElements(),
+		MessageChan: s.msgCh, WorkerNum: 2, CorrelateFields: corr, AggregateElements: aggElements(),
 		ActiveExpiryTimeout: active, InactiveExpiryTimeout: inactive,
 	})
 	if err != nil {
